@@ -362,6 +362,7 @@ func DecodeExclusive[T any](c Cursor, obj Object, decode func(Cursor, Object, bo
 	}
 	if p, ok := x.wip[key]; ok {
 		x.mu.Unlock()
+		verifYield("ex:wait")
 		<-p.done
 		if p.err != nil {
 			return zero, p.err
@@ -371,14 +372,18 @@ func DecodeExclusive[T any](c Cursor, obj Object, decode func(Cursor, Object, bo
 	p := &pending{done: make(chan struct{})}
 	x.wip[key] = p
 	x.mu.Unlock()
+	verifYield("ex:owner")
 
 	res, err := Decode(c, obj, decode)
 
+	verifYield("ex:pre-publish")
 	x.mu.Lock()
 	p.val, p.err = res, err
 	delete(x.wip, key)
 	x.mu.Unlock()
+	verifYield("ex:pre-close")
 	close(p.done)
+	verifYield("ex:closed")
 
 	return res, err
 }
